@@ -777,6 +777,10 @@ func HandOps(f *Fed) []Case {
 		// a named fragment spread at two paths whose body holds an inline fragment with a field of another service below
 		{Q: "fragment F on N1 { name ... on N1 { n2s { title } } } { n1s { ...F n2s { owner { ...F } } } }", Vars: map[string]interface{}{}, Dec: "hand:named-fragment-two-paths"},
 		{Q: "fragment F on N2 { ... on N2 { owner { name } } } { n2 { ...F owner { n2s { ...F } } } }", Vars: map[string]interface{}{}, Dec: "hand:named-fragment-two-paths"},
+		// variables inside the list / object literal of a custom scalar (no expected types inside)
+		{Q: "query ($a: String) { when(at: [$a]) }", Vars: map[string]interface{}{"a": "x"}, Dec: "hand:var-in-custom-scalar-literal"},
+		{Q: "query ($a: String) { when(at: {k: $a}) }", Vars: map[string]interface{}{"a": "x"}, Dec: "hand:var-in-custom-scalar-literal"},
+		{Q: "query ($a: String, $b: Int) { when(at: [{k: $a}, [$b, 1]]) }", Vars: map[string]interface{}{"a": "x", "b": 3}, Dec: "hand:var-in-custom-scalar-literal"},
 		// a literal that reads like the name of a variable used elsewhere
 		{Q: "query ($name: Int) { echo(x: $name) n1ByName: n1s { calc(x: 1) } }", Vars: map[string]interface{}{"name": 5}, Dec: "hand:literal-like-variable"},
 	}
